@@ -208,6 +208,33 @@ theorem trimBoth_decomp (f : Char → Bool) (s : List Char) :
   · intro c hc; exact mem_takeWhile_imp' f hc
   · intro c hc; exact mem_takeWhile_imp' f (List.mem_reverse.mp hc)
 
+/-- the result of `TrimFunc` neither starts nor ends with an `f` character -/
+theorem trimBoth_ends (f : Char → Bool) (s : List Char) :
+    (∀ c, (trimBoth f s).head? = some c → f c = false) ∧ (∀ c, (trimBoth f s).getLast? = some c → f c = false) := by
+  unfold trimBoth
+  constructor
+  · intro c hc
+    rw [List.head?_reverse] at hc
+    have hne : ((s.dropWhile f).reverse.dropWhile f) ≠ [] := by
+      intro h; rw [h] at hc; simp at hc
+    have hsuf := List.dropWhile_suffix f (l := (s.dropWhile f).reverse)
+    have h1 := hsuf.getLast hne
+    have hc' : ((s.dropWhile f).reverse.dropWhile f).getLast hne = c := by
+      have := List.getLast?_eq_some_getLast hne
+      rw [this] at hc; exact Option.some.inj hc
+    rw [hc'] at h1
+    have hne2 : s.dropWhile f ≠ [] := by
+      intro h; apply hne; simp [h]
+    have h2 : (s.dropWhile f).reverse.getLast (hsuf.ne_nil hne) = (s.dropWhile f).head hne2 := by
+      simp [List.getLast_reverse]
+    rw [h1, h2]
+    exact List.head_dropWhile_not f hne2
+  · intro c hc
+    rw [List.getLast?_reverse] at hc
+    have := List.head?_dropWhile_not f (s.dropWhile f).reverse
+    rw [hc] at this
+    exact this
+
 /-! ### the `Impl`s over `refLib` -/
 
 theorem refLib_nfc (L : Lib) : (refLib L).nfc = L.nfc := rfl
